@@ -123,6 +123,8 @@ class Interp:
         for kind, s, v in outcomes:
             # vacuity canary: `False` must not be provable at the end of any path
             u.oblige(s, z3.BoolVal(False), "canary", "end-" + kind, set())
+            if kind in ("next", "return") and c.ghost_after:
+                self.run_ghost(c, s, frame)
             if kind in ("next", "return"):
                 for exc, cond in rcond.items():
                     u.oblige(s, z3.Not(cond), "post", "no-" + exc, c.props | {"C01"})
@@ -894,6 +896,9 @@ class Interp:
                 raise Unsupported("%s escaping %s" % (kind, qname))
         if not normal:
             raise PathEnd()
+        if c is not None and c.ghost_after:
+            for s2, v in normal:
+                self.run_ghost(c, s2, fr)
         if len(normal) == 1:
             s2, v = normal[0]
         else:
@@ -901,6 +906,19 @@ class Interp:
         s2.locals = saved
         ev.st = s2
         return v if v is not None else Val(z3.IntVal(0), NONE)
+
+    def run_ghost(self, c, st, frame):
+        """ghost assignments `gfield(target) := value` of a sidecar contract; ghost state never influences real state"""
+        for g in c.ghost_after:
+            lhs, rhs = g.split(":=")
+            name, arg = lhs.strip().split("(", 1)
+            arg = arg.rsplit(")", 1)[0]
+            tv = self.spec_val(arg, st, frame, old=self.u.entry)
+            vv = self.spec_val(rhs.strip(), st, frame, old=self.u.entry)
+            key = "g:" + name.strip()
+            self.u._key_ty.setdefault(key, INT)
+            A = self.u.get_arr(st, key, INT)
+            self.u.put_arr(st, key, z3.Store(A, tv.t, vv.t))
 
     def merge(self, n0, outs):
         """merge several continuations of one path back into one state (ite on every differing component)"""
